@@ -233,6 +233,11 @@ pub fn cases_c15(tys: &[Ty], cl: &Classes, rng: &mut StdRng, sample: bool) -> Ve
                     alts.push(("x_not_reduced", { let mut b = vec![0xffu8; 48]; b[0] = 0x9f; b }));
                     alts.push(("uncompressed_flag", { let mut b = orig.to_vec(); b[0] &= 0x7f; b }));
                     alts.push(("other_valid", G1Affine::from(G1Projective::random(&mut *rng)).to_compressed().to_vec()));
+                    // flag byte altered: every other pattern of the three flag bits over an all-zero body, and the
+                    // infinity / uncompressed patterns over the honest body
+                    for f in [0x00u8, 0x20, 0x40, 0x60, 0xa0, 0xe0] { let mut b = vec![0u8; 48]; b[0] = f; alts.push(("flag_combination", b)); }
+                    { let mut b = vec![0u8; 48]; b[0] = 0xc0; b[47] = 1; alts.push(("flag_combination", b)); }
+                    for f in [0x40u8, 0x60, 0xc0, 0xe0] { let mut b = orig.to_vec(); b[0] = (b[0] & 0x1f) | f; alts.push(("flag_combination", b)); }
                 }
                 ("bytes", 96) => {
                     alts.push(("identity", G2Affine::identity().to_compressed().to_vec()));
@@ -240,6 +245,9 @@ pub fn cases_c15(tys: &[Ty], cl: &Classes, rng: &mut StdRng, sample: bool) -> Ve
                     alts.push(("off_subgroup", cl.g2_off_subgroup.clone()));
                     alts.push(("uncompressed_flag", { let mut b = orig.to_vec(); b[0] &= 0x7f; b }));
                     alts.push(("other_valid", G2Affine::from(G2Projective::random(&mut *rng)).to_compressed().to_vec()));
+                    for f in [0x00u8, 0x20, 0x40, 0x60, 0xa0, 0xe0] { let mut b = vec![0u8; 96]; b[0] = f; alts.push(("flag_combination", b)); }
+                    { let mut b = vec![0u8; 96]; b[0] = 0xc0; b[95] = 1; alts.push(("flag_combination", b)); }
+                    for f in [0x40u8, 0x60, 0xc0, 0xe0] { let mut b = orig.to_vec(); b[0] = (b[0] & 0x1f) | f; alts.push(("flag_combination", b)); }
                 }
                 ("bytes", 32) => {
                     alts.push(("noncanonical", Q_LE.to_vec()));
